@@ -63,27 +63,89 @@ Theorem C20_step_refines_spec (st : state) (o : op) : inv st ->
   snd (step o st) = snd (spec_step o (views st)).
 Proof. exact (step_refines_spec st o). Qed.
 
-(* a cast to the stored type yields the stored value, in all six forms, and changes nothing *)
-Theorem C20_cast_ok (st : state) (d : cid) (t : tag) (v : value) : view_of d st = VHolds t v ->
-  step (OCastPtr d t) st = (st, RPtr (Some v)) /\ step (OCastCPtr d t) st = (st, RPtr (Some v)) /\
-  step (OCastVal d t) st = (st, RVal v) /\ step (OCastRef d t) st = (st, RVal v) /\
-  step (OCastCVal d t) st = (st, RVal v) /\ step (OCastRVal d t) st = (st, RVal v).
-Proof. exact (c20_cast_ok st d t v). Qed.
+(* a cast to the stored type yields the stored object, in all eight read forms; the pointer
+   and reference forms change nothing, the forms that return T by value copy-construct one T *)
+Theorem C20_cast_ok (st : state) (d : cid) (t : tag) (x : hval) : view_of d st = VHolds t x ->
+  step (OCastPtr d t) st = (st, RPtr (Some x)) /\ step (OCastCPtr d t) st = (st, RPtr (Some x)) /\
+  step (OCastPtrCq d t) st = (st, RPtr (Some x)) /\
+  step (OCastRef d t) st = (st, RVal x) /\ step (OCastRefCq d t) st = (st, RVal x) /\
+  step (OCastVal d t) st = (note_ctor (t, false) st, RVal x) /\
+  step (OCastCVal d t) st = (note_ctor (t, false) st, RVal x) /\
+  step (OCastRVal d t) st = (note_ctor (t, false) st, RVal x).
+Proof. exact (c20_cast_ok st d t x). Qed.
 
-(* a cast to any other type fails: pointer forms null, value forms throw; a write
-   through such a cast writes nothing (no reinterpretation) *)
-Theorem C20_cast_wrong_type (st : state) (d : cid) (t : tag) (v : value) (t' : tag) (v' : value) :
-  view_of d st = VHolds t v -> t' <> t ->
+(* a cast to any other type fails: pointer forms null, value and reference forms throw
+   (also the T&& form); a write through such a cast writes nothing (no reinterpretation) *)
+Theorem C20_cast_wrong_type (st : state) (d : cid) (t : tag) (x : hval) (t' : tag) (v' : value) :
+  view_of d st = VHolds t x -> t' <> t ->
   step (OCastPtr d t') st = (st, RPtr None) /\ step (OCastCPtr d t') st = (st, RPtr None) /\
+  step (OCastPtrCq d t') st = (st, RPtr None) /\
   step (OCastVal d t') st = (st, RThrow) /\ step (OCastRef d t') st = (st, RThrow) /\
   step (OCastCVal d t') st = (st, RThrow) /\ step (OCastRVal d t') st = (st, RThrow) /\
+  step (OCastRefCq d t') st = (st, RThrow) /\
+  (forall asg mvt, step (OCastXVal asg d t' mvt) st = (st, RThrow)) /\
   step (OSetPtr d t' v') st = (st, RBool false) /\ step (OSetRef d t' v') st = (st, RThrow).
-Proof. exact (c20_cast_wrong_type st d t v t' v'). Qed.
+Proof. exact (c20_cast_wrong_type st d t x t' v'). Qed.
 
 (* the pointer forms accept a null operand *)
 Theorem C20_cast_null_operand (st : state) (d : cid) (t : tag) : view_of d st = VDead ->
-  step (OCastPtr d t) st = (st, RPtr None) /\ step (OCastCPtr d t) st = (st, RPtr None).
+  step (OCastPtr d t) st = (st, RPtr None) /\ step (OCastCPtr d t) st = (st, RPtr None) /\
+  step (OCastPtrCq d t) st = (st, RPtr None).
 Proof. exact (c20_cast_null_operand st d t). Qed.
+
+(* the form the library itself uses, T x = any_cast<T&&>(std::move(a)) (asg: x = ... for an
+   existing x): the caller receives the value; the container still has a value of the same
+   type (has_value, type unchanged) which is moved-from when T's move takes the value away
+   (mvt); no other container changes; nothing is allocated or destroyed; exactly one move
+   construction and no copy (none at all for the assignment shape); asking again yields a
+   moved-from object, not the value: the value is transferred exactly once *)
+Theorem C20_rvalue_ref_cast (st : state) (asg : bool) (d : cid) (t : tag) (x : hval) (mvt : bool) :
+  inv st -> view_of d st = VHolds t x ->
+  let st1 := fst (step (OCastXVal asg d t mvt) st) in
+  snd (step (OCastXVal asg d t mvt) st) = RVal x /\
+  inv st1 /\
+  view_of d st1 = VHolds t (if mvt then None else x) /\
+  (forall e, e <> d -> view_of e st1 = view_of e st) /\
+  step (OHasValue d) st1 = (st1, RBool true) /\ step (OType d) st1 = (st1, RType (Some t)) /\
+  (mvt = true -> forall asg' mvt', snd (step (OCastXVal asg' d t mvt') st1) = RVal None) /\
+  st_alog st1 = st_alog st /\ st_dlog st1 = st_dlog st /\
+  st_ctors st1 = (if asg then st_ctors st else (t, true) :: st_ctors st).
+Proof. exact (c20_xval st asg d t x mvt). Qed.
+
+(* constructions of held-type objects: value construction / assignment performs exactly one,
+   a move for the rvalue form (mv = true) and a copy otherwise; copying a non-empty container
+   performs one copy; moves, swap, reset and the destructor perform none *)
+Theorem C20_constructions (st : state) :
+  (forall mv d t v, is_free d st = true ->
+     st_ctors (fst (step (OValue mv d t v) st)) = (t, mv) :: st_ctors st) /\
+  (forall mv d t v, is_live d st = true ->
+     st_ctors (fst (step (OValueAssign mv d t v) st)) = (t, mv) :: st_ctors st) /\
+  (forall d s, st_ctors (fst (step (OMoveCtor d s) st)) = st_ctors st) /\
+  (forall d s, st_ctors (fst (step (OMoveAssign d s) st)) = st_ctors st) /\
+  (forall b d s, st_ctors (fst (step (OSwap b d s) st)) = st_ctors st) /\
+  (forall d, st_ctors (fst (step (OReset d) st)) = st_ctors st) /\
+  (forall d, st_ctors (fst (step (ODestroy d) st)) = st_ctors st) /\
+  (forall d s t x, is_free d st = true -> view_of s st = VHolds t x ->
+     st_ctors (fst (step (OCopyCtor d s) st)) = (t, false) :: st_ctors st) /\
+  (forall d s t x, is_live d st = true -> view_of s st = VHolds t x ->
+     st_ctors (fst (step (OCopyAssign d s) st)) = (t, false) :: st_ctors st) /\
+  (forall d s, view_of s st = VEmpty ->
+     st_ctors (fst (step (OCopyCtor d s) st)) = st_ctors st /\
+     st_ctors (fst (step (OCopyAssign d s) st)) = st_ctors st).
+Proof. exact (c20_constructions st). Qed.
+
+(* strong exception guarantee: when the copy constructor of the type to be copied throws
+   (value construction / assignment from a const lvalue, copy construction / assignment from a
+   container holding that type), the exception leaves the member and the whole state - values,
+   heap, logs - is exactly what it was: nothing changed, nothing leaked *)
+Theorem C20_strong_guarantee (st : state) :
+  (forall d t v, is_free d st = true -> step (OValueThrow d t v) st = (st, RExn)) /\
+  (forall d t v, is_live d st = true -> step (OValueAssignThrow d t v) st = (st, RExn)) /\
+  (forall d s tx x, is_free d st = true -> view_of s st = VHolds tx x ->
+     step (OCopyCtorArmed d s tx) st = (st, RExn)) /\
+  (forall d s tx x, is_live d st = true -> view_of s st = VHolds tx x ->
+     step (OCopyAssignArmed d s tx) st = (st, RExn)).
+Proof. exact (c20_strong_guarantee st). Qed.
 
 (* copies are deep and independent: the copy has its own holder, and a write through a
    cast of the copy leaves the source unchanged and vice versa (copy constructor) *)
@@ -142,32 +204,33 @@ Theorem C20_self_assign_harmless (st : state) (d : cid) : inv st -> is_live d st
   (forall b, views (fst (step (OSwap b d d) st)) = views st).
 Proof. exact (c20_self_assign_harmless st d). Qed.
 
-(* what that test is for: the same body without it releases the content on self-move *)
-Theorem C20_self_move_without_test_releases (st : state) (d : cid) : is_live d st = true ->
-  view_of d (m_move_assign_nocheck d d st) = VEmpty.
-Proof. exact (move_assign_nocheck_self_releases st d). Qed.
-
 (* an empty container reports the void type, has no value, and every cast of it fails *)
 Theorem C20_empty_type_void (st : state) (d : cid) (t : tag) : view_of d st = VEmpty ->
   step (OType d) st = (st, RType None) /\ step (OHasValue d) st = (st, RBool false) /\
   step (OCastPtr d t) st = (st, RPtr None) /\ step (OCastCPtr d t) st = (st, RPtr None) /\
+  step (OCastPtrCq d t) st = (st, RPtr None) /\
   step (OCastVal d t) st = (st, RThrow) /\ step (OCastRef d t) st = (st, RThrow) /\
-  step (OCastCVal d t) st = (st, RThrow) /\ step (OCastRVal d t) st = (st, RThrow).
+  step (OCastCVal d t) st = (st, RThrow) /\ step (OCastRVal d t) st = (st, RThrow) /\
+  step (OCastRefCq d t) st = (st, RThrow) /\
+  (forall asg mvt, step (OCastXVal asg d t mvt) st = (st, RThrow)).
 Proof. exact (c20_empty_type_void st d t). Qed.
 
 (* non-vacuity: a concrete word over a pool of 3 — value-construct a string-typed 7 in 0,
    copy it to 1, overwrite the copy through a cast pointer, self-move-assign and
-   self-copy-assign 0, move 0 into 2 — reaches a state that satisfies the
+   self-copy-assign 0, move 0 into 2, take the value out of 2 through the T&& cast,
+   copy-assign 1 to 0 while the copy constructor throws — reaches a state that satisfies the
    hypotheses used above (inv, a live holder, an empty moved-from container, a free index). *)
 Definition c20_word : list op :=
-  [OValue false 0 2 7%Z; OCopyCtor 1 0; OSetPtr 1 2 9%Z; OMoveAssign 0 0; OCopyAssign 0 0; OMoveCtor 2 0].
+  [OValue false 0 2 7%Z; OCopyCtor 1 0; OSetPtr 1 2 9%Z; OMoveAssign 0 0; OCopyAssign 0 0; OMoveCtor 2 0;
+   OCastXVal false 2 2 true; OCopyAssignArmed 0 1 2].
 
 Example C20_concrete :
   let st := exec c20_word (init 3) in
-  views st = [VEmpty; VHolds 2 9%Z; VHolds 2 7%Z] /\
-  snd (run c20_word (init 3)) = [RUnit; RUnit; RBool true; RUnit; RUnit; RUnit] /\
+  views st = [VEmpty; VHolds 2 (Some 9%Z); VMoved 2] /\
+  snd (run c20_word (init 3)) = [RUnit; RUnit; RBool true; RUnit; RUnit; RUnit; RVal (Some 7%Z); RExn] /\
+  st_ctors st = [(2, true); (2, false); (2, false); (2, false)] /\
   length (st_heap st) = 2 /\ st_dlog st = [0] /\ st_faults st = [] /\
-  snd (step (OCastVal 1 2) st) = RVal 9%Z /\ snd (step (OCastVal 1 0) st) = RThrow /\
+  snd (step (OCastVal 1 2) st) = RVal (Some 9%Z) /\ snd (step (OCastRefCq 2 2) st) = RVal None /\ snd (step (OCastVal 1 0) st) = RThrow /\
   snd (step (OType 0) st) = RType None /\
   st_heap (destroy_all st) = [] /\ length (st_alog (destroy_all st)) = 3 /\
   is_free 0 (fst (step (ODestroy 0) st)) = true /\ is_live 1 st = true.
@@ -186,11 +249,13 @@ Print Assumptions C20_step_refines_spec.
 Print Assumptions C20_cast_ok.
 Print Assumptions C20_cast_wrong_type.
 Print Assumptions C20_cast_null_operand.
+Print Assumptions C20_rvalue_ref_cast.
+Print Assumptions C20_constructions.
+Print Assumptions C20_strong_guarantee.
 Print Assumptions C20_copy_independent.
 Print Assumptions C20_copy_assign_independent.
 Print Assumptions C20_write_frame.
 Print Assumptions C20_moved_from_empty.
 Print Assumptions C20_move_assigned_from_empty.
 Print Assumptions C20_self_assign_harmless.
-Print Assumptions C20_self_move_without_test_releases.
 Print Assumptions C20_empty_type_void.
